@@ -20,6 +20,7 @@ TAGS = {
     6: 'iivsearch brute-force candidates differ from the model',
     7: 'MFL parse/stringify/algebra result differs from the model',
     8: 'not_supported_combo table regenerated from source differs from the verified table',
+    10: 'the reference MFL parser (MflParser.parse_mfl) disagrees with lark + MFLInterpreter on a text',
     11: 'partitions(): an output is not a partition of the input',
     12: 'partitions(): two outputs denote the same set partition',
     13: 'partitions(): number of outputs is not the Bell number',
@@ -50,7 +51,7 @@ TAGS = {
     766: 'MFL: least_number_of_transformations raises an internal error',
     77: 'MFL: least_number_of_transformations is not a smallest set of transformations into the other space',
 }
-CORR = (1, 2, 3, 4, 5, 6, 7, 8)
+CORR = (1, 2, 3, 4, 5, 6, 7, 8, 10)
 
 # fixed code table shared with coq/theories/C18/Model.v (s_* definitions)
 STR_CODES = {
@@ -245,7 +246,7 @@ def classify(ctx, spec, tags):
     return status
 
 
-IMPORTS = 'Base.PyData C18.Model C18.MflModel C18.MflCheck C18.Check'
+IMPORTS = 'Base.PyData C18.Model C18.MflModel C18.MflCheck C18.MflParser C18.Check'
 
 
 def run_specs(ctx, specs, label, shard=40):
@@ -257,6 +258,9 @@ def run_specs(ctx, specs, label, shard=40):
             continue
         try:
             term, info = M.with_time_limit(20 if timeouts.get(spec['kind']) else 60, observe, spec)
+        except M.Unexportable:
+            ctx.coverage['skipped_unexportable'] = ctx.coverage.get('skipped_unexportable', 0) + 1
+            continue
         except M.Rejected:
             ctx.coverage['rejected_by_parser'] = ctx.coverage.get('rejected_by_parser', 0) + 1
             continue
@@ -302,12 +306,12 @@ def run(ctx):
         'networkx DiGraph node order / predecessors as used by Workflow.output_tasks, get_predecessors (the harness walks the real workflow graphs)',
     ]
     ctx.assumptions += [
-        'the LALR grammar of the MFL (lark) is an engine: the printed form is re-parsed by the real parser; no reference parser is proved (only validate_mfl_list is modelled)',
+        'the LALR grammar of the MFL (lark) is an engine; it is tied to the proved reference parser MflParser.parse_mfl by comparing accept/reject and the statements on generated upper-case texts incl. a one-edit malformed stream (ALLOMETRY and lower-case spellings are outside the reference grammar)',
         'model fitting / the transformation functions attached to feature keys are not executed: only the workflow graphs the algorithm builders create are compared',
         'COVARIATE wildcards and model-dependent references (@PK, @IIV, ...; ModelFeatures.expand(model)), ALLOMETRY and get_model_features are not covered; LET references are',
         'a - b: where a category difference is empty the result may carry the category default (ModelFeatures.create completes a PK space); this convention is part of the specification used',
         'contain_subset is judged as modelsearch uses it (tool=None: PK categories, DRUG peripherals) and only on PK spaces; least_number_of_transformations only with tool=modelsearch',
-        'the stepwise algorithms are judged on feature dictionaries as modelsearch builds them (DRUG peripherals listed in increasing order)',
+        'the stepwise algorithms are judged on feature dictionaries from convert_to_funcs() in any listing order (DRUG and MET peripherals)',
     ]
     ctx.coverage['source_sha'] = source_sha(
         'src/pharmpy/internals/set/partitions.py', 'src/pharmpy/internals/set/subsets.py',
